@@ -287,12 +287,14 @@ func Run(t *testing.T, opt Options, body func()) (res Result) {
 						allDone = false
 					}
 				}
-				if allDone || sleeps >= 3 {
+				if allDone || sleeps >= 3 || res.FakeSleeps >= 100000 {
 					break
 				}
+				// let simulated time pass: an hour, then four days, then a year
+				d := []time.Duration{time.Hour, 100 * time.Hour, 10000 * time.Hour}[sleeps]
 				sleeps++
 				res.FakeSleeps++
-				time.Sleep(time.Hour)
+				time.Sleep(d)
 				continue
 			}
 			if res.Steps >= opt.MaxSteps {
@@ -305,6 +307,7 @@ func Run(t *testing.T, opt Options, body func()) (res Result) {
 			if len(parked) >= 2 {
 				res.Choices++
 			}
+			sleeps = 0 // progress is possible again: the fake-sleep allowance is per stall
 			i := pk.pick(parked, res.Steps)
 			tk := parked[i]
 			lbl := tk.Label()
